@@ -125,8 +125,14 @@ def bounded(ctx):
                     if got != want:
                         viol.append(dict(name="iupac_%s_%s" % (code, cased), what="IUPAC code %s vs letter %s: matches=%s, table says %s" % (code, cased, got, want),
                                          case=dict(pattern=code, target=cased), expected=want, observed=got))
-        for lower_code in (code.lower(),):
-            pass
+        # either letter case, for every letter a sequence may contain (the ambiguity letters too: a plasmid with an unknown
+        # base spelled `n` is the plasmid with that base spelled `N`)
+        for nt in letters:
+            evals += 1
+            up_, lo_ = rx.search(Seq(nt)) is not None, rx.search(Seq(nt.lower())) is not None
+            if up_ != lo_:
+                viol.append(dict(name="case_%s_%s" % (code, nt), what="IUPAC code %s: text letter %s matches=%s but %s matches=%s" % (
+                    code, nt, up_, nt.lower(), lo_), case=dict(pattern=code, target=nt), expected=up_, observed=lo_))
     samples.append(dict(kind="iupac-table", pattern="R", target="g", matches=DNARegex("R").search(Seq("g")) is not None))
     # (2) all targets up to length L over ACGT x pattern family x ranges x 4 target kinds
     L = 5 if ctx.tier == "quick" else 6
